@@ -11,7 +11,7 @@ def correspondence(ctx):
     impl = rle_check(ctx, corr, ['zs', 'nonascii_zs', 'opmap_after', 'nickmap_mid'], ['zs', 'nonascii_zs', 'opmap_after', 'nickmap_mid'])
     zs = [c for s_, e, v in impl['zs'] if v == '1' for c in range(s_, e + 1)]
     corr.count('zs_code_points', len(zs))
-    alpha = SPACES + PLAIN
+    alpha = xa(ctx, SPACES + PLAIN, 3)
     maxlen = 5 if ctx.tier == 'quick' else 6
     cases = []
     for s in all_strings(alpha, maxlen):
